@@ -250,6 +250,43 @@ impl Prop for C19 {
         }
         findings.report_all(out);
 
+        // shifts whose 254-bit masked result, BEFORE the reduction by p, is a value built from p's own limbs: every limb of
+        // the intermediate result in {p_i - 1, p_i, p_i + 1} (lowest limb 0 or p_0 - 1, so that it can be a shifted value);
+        // the operand is that value shifted back, for every count that leaves it intact
+        {
+            let pl: Vec<u64> = p().iter_u64_digits().collect();
+            let mut n_int = 0u64;
+            let mut o2 = vec![];
+            for l0 in [0u64, pl[0] - 1] {
+                for d1 in [-1i64, 0, 1] {
+                    for d2 in [-1i64, 0, 1] {
+                        for d3 in [-1i64, 0, 1] {
+                            let limbs = [l0, (pl[1] as i128 + d1 as i128) as u64, (pl[2] as i128 + d2 as i128) as u64, (pl[3] as i128 + d3 as i128) as u64];
+                            let d = limbs.iter().rev().fold(big(0), |acc, l| (acc << 64usize) + big(*l));
+                            if d >= pow2(254) {
+                                continue;
+                            }
+                            for n in [1u32, 2, 8, 16, 28, 32, 63, 64] {
+                                if (&d & (pow2(n) - big(1))) != big(0) {
+                                    continue;
+                                }
+                                let a = &d >> n as usize;
+                                if a >= *p() {
+                                    continue;
+                                }
+                                self.duo(Op::Shl, &a, &big(n as u64), &mut o2);
+                                // the same shift asked for as a right shift by the negative count
+                                self.duo(Op::Shr, &a, &(p() - big(n as u64)), &mut o2);
+                                n_int += 2;
+                            }
+                        }
+                    }
+                }
+            }
+            findings.report_all(o2);
+            evals += n_int;
+            ev.set("shifts_with_limb_pattern_intermediates", json!(n_int));
+        }
         // history independence: sequences of calls on one fresh thread. Per operator every sequence of length 4 over
         // the calls {op(a,x), op(b,x), op(a,y), op(b,y)}; per ordered pair of operators every sequence of length 3
         // over {op1(a,x), op1(a,y), op2(a,x), op2(b,y)}
@@ -282,7 +319,7 @@ impl Prop for C19 {
         let nontrivial = evals; // every (operator, operand tuple) is a distinct case by construction
         ev.set("evaluations", json!(evals));
         ev.set("distinct_nontrivial", json!(nontrivial));
-        ev.set("rule", json!("Cartesian product: 20 binary operators x G x G (G = boundary grid {0,1,2,2^k-1,2^k,2^k+1,(p-1)/2,(p+1)/2,p-2,p-1} + seeded randoms, deduplicated), Shl/Shr additionally x shift counts 0..260 and p-k; Neg/Id x G; TernCond x {0,1,p-1} x Gq^2. Each tuple is evaluated by eval_fr (Montgomery) and eval (integer) and compared with the BigUint reference of circom's semantics. Every tuple is distinct (grid is deduplicated), so distinct_nontrivial = evaluations. History independence: per operator every sequence of 4 calls over {op(a,x), op(b,x), op(a,y), op(b,y)} and per ordered operator pair every sequence of 3 calls over {op1(a,x), op1(a,y), op2(a,x), op2(b,y)}, each sequence on a fresh thread, every call compared with the reference."));
+        ev.set("rule", json!("Cartesian product: 20 binary operators x G x G (G = boundary grid {0,1,2,2^k-1,2^k,2^k+1,(p-1)/2,(p+1)/2,p-2,p-1} + seeded randoms, deduplicated), Shl/Shr additionally x shift counts 0..260 and p-k; Neg/Id x G; TernCond x {0,1,p-1} x Gq^2. Each tuple is evaluated by eval_fr (Montgomery) and eval (integer) and compared with the BigUint reference of circom's semantics. Every tuple is distinct (grid is deduplicated), so distinct_nontrivial = evaluations. Shl (and Shr by the negative count) on operands whose masked intermediate result has every limb within 1 of the corresponding limb of p. History independence: per operator every sequence of 4 calls over {op(a,x), op(b,x), op(a,y), op(b,y)} and per ordered operator pair every sequence of 3 calls over {op1(a,x), op1(a,y), op2(a,x), op2(b,y)}, each sequence on a fresh thread, every call compared with the reference."));
         ev.set("grid_size", json!(g.len()));
         ev.set("operators", json!(22));
         ev.set("exhaustive", json!(true));
